@@ -4,6 +4,7 @@
 //! repeatedly. Oracles: C05 (state is a function of the change set), C06 (rejected changes
 //! leave no trace), C08 (merged only by a threshold), C09 (cache == direct evaluation).
 
+mod authz;
 mod identity;
 mod ops;
 mod oracle;
@@ -57,6 +58,7 @@ pub struct World<'a> {
     /// (replica, is_issue): the replica created an object again that already existed with the same
     /// id (same author, content and second), see known finding C09/after-identical-create
     pub recreated: BTreeSet<(usize, bool)>,
+    pub authz: authz::Authz,
 }
 
 impl<'a> World<'a> {
@@ -121,6 +123,10 @@ fn setup<'a>(ch: &'a mut Chooser, cfg: &RunCfg) -> World<'a> {
         let k = [2, 3, 2, 1][ch.pick_usize(4)].min(n);
         let t = if k >= 2 && ch.pick(4) != 3 { 2 + ch.pick_usize(k - 1) } else { 1 };
         (k, t)
+    } else if cfg.property == "C07" {
+        // few delegates, so that most actors need a specific permission
+        let k = 1 + ch.pick_usize(2);
+        (k, 1 + ch.pick_usize(k))
     } else if cfg.property == "C04" || cfg.property == "ALLI" {
         let k = 1 + ch.pick_usize(4.min(n));
         (k, 1 + ch.pick_usize(k))
@@ -155,7 +161,7 @@ fn setup<'a>(ch: &'a mut Chooser, cfg: &RunCfg) -> World<'a> {
     let mut res = RunResult::new();
     res.trace.log("setup", format!("replicas={n} delegates={k} threshold={threshold} faults={faults}"));
     res.summary = format!("{n} replica(s), {k} delegate(s), threshold {threshold}, faults={faults}");
-    let mut w = World { ch, own, res, dir, reps, rid, threshold, commits: Vec::new(), issues: Vec::new(), patches: Vec::new(), time: 1_700_000_100, faults, partitioned: BTreeSet::new(), labels: BTreeMap::new(), recreated: BTreeSet::new() };
+    let mut w = World { ch, own, res, dir, reps, rid, threshold, commits: Vec::new(), issues: Vec::new(), patches: Vec::new(), time: 1_700_000_100, faults, partitioned: BTreeSet::new(), labels: BTreeMap::new(), recreated: BTreeSet::new(), authz: authz::Authz::default() };
 
     // code: c0 - c1 - c2 on master, c3 a side branch off c0
     let raw = &repo.backend;
